@@ -118,6 +118,7 @@ type SpecDB struct {
 	Files        []string
 	Markers      []string            // trusted/assume markers found
 	Monitors     map[string]*Monitor // "StructType.mutexField"
+	Relies       map[string][]string // property -> properties that rely on its mechanisms ("relies C02: C01" stores Relies["C01"] = [C02])
 }
 
 // Monitor: a mutex field of a struct protects other fields of the same struct. Lock() havocs the
@@ -131,7 +132,7 @@ type Monitor struct {
 }
 
 func NewSpecDB() *SpecDB {
-	return &SpecDB{Contracts: map[string]*Contract{}, Externs: map[string]*Contract{}, Funs: map[string]*SpecFun{}, UFuns: map[string]*UFun{}, Consts: map[string]string{}, Methods: map[string]bool{}, Globals: map[string]string{}, FuncTypes: map[string]bool{}, MethodDefs: map[string]*SpecFun{}, FuncTypeLaws: map[string]*Expr{}, MethodLaws: map[string]*Expr{}, Monitors: map[string]*Monitor{}}
+	return &SpecDB{Contracts: map[string]*Contract{}, Externs: map[string]*Contract{}, Funs: map[string]*SpecFun{}, UFuns: map[string]*UFun{}, Consts: map[string]string{}, Methods: map[string]bool{}, Globals: map[string]string{}, FuncTypes: map[string]bool{}, MethodDefs: map[string]*SpecFun{}, FuncTypeLaws: map[string]*Expr{}, MethodLaws: map[string]*Expr{}, Monitors: map[string]*Monitor{}, Relies: map[string][]string{}}
 }
 
 type specLine struct {
@@ -272,6 +273,18 @@ func (db *SpecDB) LoadSpecFile(path string) error {
 			}
 			db.Globals[strings.TrimSpace(f[0])] = strings.TrimSpace(f[1])
 			db.Markers = append(db.Markers, "global "+strings.TrimSpace(f[0]))
+			cur = nil
+		case "relies":
+			// relies <Cxx>: <Cyy>, <Czz>   property Cxx rests on the mechanisms Cyy / Czz own: every obligation that
+			// counts towards Cyy also counts towards Cxx (the check of Cxx verifies those functions too)
+			f := strings.SplitN(rest, ":", 2)
+			if len(f) != 2 {
+				return fail(fmt.Errorf("relies <Cxx>: <Cyy>, ..."))
+			}
+			for _, q := range strings.Split(f[1], ",") {
+				q = strings.TrimSpace(q)
+				db.Relies[q] = append(db.Relies[q], strings.TrimSpace(f[0]))
+			}
 			cur = nil
 		case "const":
 			f := strings.Fields(rest)
@@ -490,7 +503,7 @@ func (db *SpecDB) LoadSpecFile(path string) error {
 	return nil
 }
 
-var keywords = map[string]bool{"macro": true, "functype": true, "global": true, "func": true, "extern": true, "method": true, "ufun": true, "fun": true, "axiom": true, "const": true, "defines": true, "monitor": true, "protects": true, "invariant": true, "stable": true, "callback": true, "selfcallback": true, "signals": true, "zerooffsets": true,
+var keywords = map[string]bool{"relies": true, "macro": true, "functype": true, "global": true, "func": true, "extern": true, "method": true, "ufun": true, "fun": true, "axiom": true, "const": true, "defines": true, "monitor": true, "protects": true, "invariant": true, "stable": true, "callback": true, "selfcallback": true, "signals": true, "zerooffsets": true,
 	"requires": true, "ensures": true, "panics": true, "assigns": true, "loop": true, "property": true, "inline": true, "pure": true,
 	"nosafety": true, "opaque": true, "params": true, "results": true, "calls": true, "frameprop": true, "trusted": true, "purecallbacks": true}
 
@@ -1012,5 +1025,32 @@ func LoadAllSpecs(specDir, repo string) (*SpecDB, error) {
 			}
 		}
 	}
+	db.applyRelies()
 	return db, nil
+}
+
+// applyRelies widens every contract's property lists by the "relies" directives.
+func (db *SpecDB) applyRelies() {
+	if len(db.Relies) == 0 {
+		return
+	}
+	widen := func(ps []string) []string {
+		out := append([]string{}, ps...)
+		for _, p := range ps {
+			base, suffix := p, ""
+			if i := strings.Index(p, ":"); i >= 0 {
+				base, suffix = p[:i], p[i:]
+			}
+			for _, q := range db.Relies[base] {
+				if !contains(out, q+suffix) && !contains(out, q) {
+					out = append(out, q+suffix)
+				}
+			}
+		}
+		return out
+	}
+	for _, c := range db.Contracts {
+		c.Props = widen(c.Props)
+		c.FrameProps = widen(c.FrameProps)
+	}
 }
